@@ -397,7 +397,7 @@ var c09Prefixes = [][]c09Op{
 func c09Respecify(r *core.Run) {
 	kOne, kTwo := 3, 3
 	if r.Thorough() {
-		kOne, kTwo = 6, 5
+		kOne, kTwo = 5, 4
 	}
 	r.Bounds["respecification_histories"] = fmt.Sprintf("%d registration prefixes x every sequence of <=%d (one route) / <=%d (two routes) Headers() calls over %d constraint sets", len(c09Prefixes), kOne, kTwo, len(c09HdrSetsRespec))
 	type job struct {
